@@ -31,9 +31,10 @@ def mutate(r, T, g, tree):
     t = copy.deepcopy(tree)
     nodes = list(gentree.all_nodes(t))
     kind = r.choice(["layout", "value", "name", "flag", "degree_same", "degree_diff", "child",
-                     "swap", "arity", "class", "none"])
+                     "swap", "arity", "class", "none", "lookalike", "lookalike"])
     applicable = {
         "value": lambda n: isinstance(n, T.Term),
+        "lookalike": lambda n: isinstance(n, (T.Term, T.SearchField)),
         "name": lambda n: isinstance(n, T.SearchField),
         "flag": lambda n: isinstance(n, (T.Range, T.OpenRange)),
         "degree_same": lambda n: isinstance(n, (T.Fuzzy, T.Boost)),
@@ -66,6 +67,19 @@ def mutate(r, T, g, tree):
         n.size = r.randrange(100)
         setattr(n, "_luqum_name", "nm")
         return t, "layout-only"
+    if kind == "lookalike":
+        # a different value / name that a lenient comparison (unescaping, case folding, stripping, Unicode
+        # normalisation, prefix) would take for the same one
+        import unicodedata
+        attr = "value" if isinstance(n, T.Term) else "name"
+        v = getattr(n, attr)
+        i = r.randrange(0, len(v) + 1)
+        variants = [v.swapcase(), v[:i] + "\\" + v[i:], v.replace("\\", "", 1), v + " ", " " + v, v[:i] + " " + v[i:],
+                    unicodedata.normalize("NFD", v), unicodedata.normalize("NFC", v),
+                    unicodedata.normalize("NFKC", v), v[:-1], v + v[-1:], v.replace("*", "\\*"), v.replace("?", "*")]
+        variants = [x for x in variants if x != v]
+        setattr(n, attr, r.choice(variants))
+        return t, "%s-lookalike" % attr
     if kind == "value" and isinstance(n, T.Term):
         n.value = n.value[:-1] + "z" + n.value[-1:] if n.value else "z"
         return t, "value"
